@@ -45,7 +45,6 @@ Definition enc_leaf (rho : var -> Z) (l : leaf) : list Z :=
   | LHalt k => [2; k]
   | LStuck w => [3; w]
   | LFuel => [4; 0]
-  | LBadJumpEarly => [5; 0]
   end.
 
 Definition sym_run (inp : list Z) : list Z :=
@@ -99,7 +98,6 @@ Definition enc_leaf2 (rho : var -> Z) (l : leaf2) : list Z :=
   | K2Halt k ctr => [2; k]
   | K2Stuck w => [3; w]
   | K2Fuel => [4; 0]
-  | K2Early => [5; 0]
   end.
 
 Definition sym_run2 (inp : list Z) : list Z :=
